@@ -375,7 +375,12 @@ def run_one_group(g, scratch, th, prop, tier):
             return res
         d = dict(parsed)
         d["__rc"], d["__cmd"] = rc, cmd
-        json.dump(d, open(ck, "w"))
+        # only DECIDED runs are cached: a harness without a verdict (CBMC timeout / killed / out of memory - e.g. on a loaded
+        # machine), or a failed one without a failed check to show, must be tried again by the next run
+        decided = all(r["status"] == "ok" or (r["status"] == "fail" and r["fails"] and "CBMC timed out" not in r["body"]
+                                               and "CBMC failed" not in r["body"]) for r in parsed.values())
+        if decided and all(h["name"] in parsed for h in hs):
+            json.dump(d, open(ck, "w"))
     res["cmd"] = cmd
     bounded_notes = []
     for h in hs:
